@@ -4,6 +4,7 @@ from ..terms import TermBuilder
 from .. import rec
 
 NEED_DEPS = True
+USES_QUERIES = True
 EXPLANATION = (
     "FLOW/TABLE/REC rules. C14.1: is_equivalent_to = eq(digest(self), digest(other)). C14.2: is_identical_to evaluated under "
     "every valuation of (equivalent, structural digests equal) returns exactly (F,*)->false, (T,F)->false, (T,T)->true; any branch "
@@ -12,9 +13,9 @@ EXPLANATION = (
     "EVERY visited element (the append post-dominates the visitor's entry), appends digest(element) preceded by a per-class marker; "
     "the marker constants of {elided, encrypted, compressed} are pairwise distinct and the non-obscured arm appends no marker, so the "
     "per-element contribution is injective in (class, digest). Depends on C15.1 (walk completeness) and C01.4 (immutability). "
-    "Reflexivity/symmetry/transitivity follow from comparing a pure function of an immutable value. C14.6: identity preserved by encoding and decoding = every C05 instance (writer/reader table agreement, predicate tables, writer image inside reader domain) re-evaluated under this property.")
+    "Reflexivity/symmetry/transitivity follow from comparing a pure function of an immutable value. C14.6: identity preserved by encoding and decoding = every C05 instance (writer/reader table agreement, predicate tables, writer image inside reader domain) re-evaluated under this property. C14.7: walk completeness (every C15.1 instance, incl. no depth test) re-evaluated here.")
 TRUSTED = ['Digest PartialEq compares the 32 bytes', 'Digest::from_image = SHA-256']
-FLOORS = {'C14.1': 1, 'C14.2': 1, 'C14.3': 1, 'C14.4': 3, 'C14.6': 30}
+FLOORS = {'C14.1': 1, 'C14.2': 1, 'C14.3': 1, 'C14.4': 3, 'C14.6': 30, 'C14.7': 8}
 P1, P2 = ('param', 1), ('param', 2)
 
 
@@ -200,3 +201,11 @@ def check(ctx):
         C05.check(Relabel(ctx, 'C14.6', ['C05']))
     except Exception as e:
         ctx.fail('C14.6', '-', 'encode/decode agreement (C05) could not be evaluated: %r' % e, key='C14.6|c05')
+    # C14.7: the structural digest is built on the structure walk, so "identical iff equivalent and the same obscuration pattern" needs
+    # the walk to reach EVERY element at every depth: the C15.1 instances (visitor once per element, every child kind entered, no depth
+    # test) re-evaluated under this property
+    from . import C15
+    try:
+        C15.check(Relabel(ctx, 'C14.7', ['C15.1']))
+    except Exception as e:
+        ctx.fail('C14.7', '-', 'walk completeness (C15.1) could not be evaluated: %r' % e, key='C14.7|c15')
